@@ -193,6 +193,37 @@ pub fn run(ctx: &Ctx) -> Result<Ev, String> {
     for p in parts {
         total.merge(p);
     }
+    // free-form leg: the byte decoder of the libFuzzer target `gate` (any device × any encodable
+    // instruction with operands spelled several ways, at word addresses 0..5)
+    {
+        let n: u64 = if ctx.thorough { 8_000_000 } else { 800_000 };
+        let parts: Vec<Ev> = (0..32u64)
+            .into_par_iter()
+            .map(|sh| {
+                let mut rng = par::rng_for(ctx.seed, "C13-free", sh);
+                let mut ev = Ev::new("C13");
+                for _ in 0..n / 32 {
+                    let mut buf = [0u8; 64];
+                    rng.fill_bytes(&mut buf);
+                    let c = crate::decode::instr_case(&mut crate::decode::Cur::new(&buf));
+                    if let Some((class, r)) = crate::fuzz::instr_c13(&c) {
+                        ev.eval();
+                        ev.class(&format!("free-form:{}", class));
+                        if class == "gated" {
+                            ev.nt(fp(&(&c.m, &c.ops, c.dev, c.pc)));
+                        }
+                        if let Err(v) = r {
+                            ev.violation(v);
+                        }
+                    }
+                }
+                ev
+            })
+            .collect();
+        for p in parts {
+            total.merge(p);
+        }
+    }
     total.extra.insert("devices".into(), json!(devs.len()));
     total.extra.insert("forms".into(), json!(forms.len()));
     Ok(total)
